@@ -39,8 +39,8 @@ let run_case line =
     Printf.sprintf "R:%s|L:%s" (String.concat "," (List.map show_res (cut rs))) (String.concat ";" log)
   | ["S"; cap; queue; ops] ->
     let ops = parse_ops ops in
-    let q = int_of_string queue in
-    let script = List.init q (fun _ -> WOk) @ List.init (3 * List.length ops + 3) (fun _ -> WErr N0) in
+    let script = if queue = "u" then [] else
+      List.init (int_of_string queue) (fun _ -> WOk) @ List.init (3 * List.length ops + 3) (fun _ -> WErr N0) in
     let c = if cap = "d" then None else Some (nat_of_int (int_of_string cap)) in
     let (rs, s) = run_from (sink_init c script) O ops in
     let s = mlw_drop s (nat_of_int (List.length ops)) in
